@@ -197,6 +197,9 @@ def extra_ops(s, universe):
             yield ('intersection_update', t, ign)
 
 
+TAKE_FORMS = (tuple, iter, lambda seq: (x for x in seq), lambda seq: dict.fromkeys(seq).keys())
+
+
 def derived_obs(universe, states):
     """Derived definitions (union/intersection/take/...) as strings."""
     from mc import explore, tablemodel as tm
@@ -215,6 +218,13 @@ def derived_obs(universe, states):
         pn = [explore.L(x) for x in universe[1]]
         obs.append(exc(lambda: d.take(list(reversed(names)), list(reversed(pn)), reorder=True)))
         obs.append(exc(lambda: d.take(list(reversed(names)), None)))
+        # the same selections handed over as ordered non-list iterables (tuple, key view, one-shot
+        # iterator, generator): whatever the call does with them, it must not follow the hashes
+        present = ([n for n in reversed(names) if n in s[0]], [n for n in reversed(pn) if n in s[1]])
+        for form in TAKE_FORMS:
+            for sel in ((list(reversed(names)), list(reversed(pn))), present):
+                for reorder in (False, True):
+                    obs.append(exc(lambda: d.take(form(sel[0]), form(sel[1]), reorder=reorder)))
         out.append((json.dumps(tm.triple(s)), '|'.join(obs)))
     return out
 
